@@ -22,7 +22,7 @@ From Nexus Require Import Router.DealerLib Router.DealerProofs Router.DealerRepl
 From Nexus Require Import Router.RealmTraceLib Router.RealmTrace Router.RealmTraceC05 Router.RealmTraceInv
      Router.RealmTraceC03 Router.RealmTraceEx.
 From Nexus Require Import Router.RealmTraceC13 Router.RealmTraceC13Step Router.RealmTraceC13Nd Router.RealmTraceC13Inv
-     Router.RealmTraceC13Thm Router.RealmTraceC13Fire.
+     Router.RealmTraceC13Thm Router.RealmTraceC13Fire Router.RealmTraceC13Once.
 From Coq Require Import Lia.
 
 (** ** Corollaries: no authorizer *)
@@ -69,6 +69,18 @@ Proof.
   intros cfg ops1 ms ops2 pre0 x q opts proc a kw orc y i rid det rest Ha Ho Hk.
   exact (timeout_fires_proof cfg ops1 ms ops2 pre0 x q opts proc a kw orc y i rid det rest Ho Hk
                              (gate_transparent_no_authz cfg _ Ha)).
+Qed.
+
+Theorem interrupt_at_most_once_noauthz_proof : forall cfg ops y i pre e1 mid e2 post,
+    c_authz cfg = None ->
+    Forall op_ok ops -> k0 cfg + N.of_nat (List.length ops) <= max_idN ->
+    trace cfg ops = pre ++ e1 :: mid ++ e2 :: post ->
+    rintr_ev y i e1 -> rintr_ev y i e2 ->
+    exists m1 x q opts proc a kw orc rid det m2,
+      mid = m1 ++ EIn (OMsg x (CCall q opts proc a kw) orc) :: EOut (y, RInvocation i rid det a kw) :: m2.
+Proof.
+  intros cfg ops y i pre e1 mid e2 post Ha Ho Hk.
+  exact (interrupt_at_most_once_proof cfg ops y i pre e1 mid e2 post Ho Hk (gate_transparent_no_authz cfg ops Ha)).
 Qed.
 
 (** the clock of the model is the sum of the ticks of the history *)
@@ -119,7 +131,8 @@ Proof. intros. reflexivity. Qed.
 Lemma interrupted_pending_meaning_proof : forall cfg ops pre y i iopts,
     interrupted_pending cfg ops pre y i iopts <->
     exists reason mode, iopts = [("reason", vuri reason); ("mode", vstr mode)] /\
-    exists ops1 o ops2 outs, ops = ops1 ++ o :: ops2 /\ pre = trace cfg ops1 ++ EIn o :: map EOut outs /\
+    exists ops1 o ops2 outs outs2, ops = ops1 ++ o :: ops2 /\ pre = trace cfg ops1 ++ EIn o :: map EOut outs /\
+    snd (step (fst (run (init_realm cfg) ops1)) o) = outs ++ (y, RInterrupt i iopts) :: outs2 /\
     (exists ys, find_session (r_clients (fst (run (init_realm cfg) ops1))) y = Some ys /\
                 sess_feature ys "callee" f_call_canceling = true) /\
     exists pre0 x q opts proc a kw orc rid det rest,
@@ -339,3 +352,36 @@ Module AuthzEx.
   Lemma outs : snd (run (init_realm cfgA) TmoEx.ops) = snd (run (init_realm cfg13) TmoEx.ops).
   Proof. vm_compute. reflexivity. Qed.
 End AuthzEx.
+
+(** two INTERRUPTs with a reason for (11, 1): session 11 left and joined again in between *)
+Module OnceEx.
+  Definition ops : list op :=
+    [OJoin 10 false hello_all; OJoin 11 false hello_all; OMsg 11 (CRegister 1 [] "p") 0;
+     OMsg 10 (CCall 7 [] "p" [] []) 0; OMsg 10 (CCancel 7 []) 0;
+     ODrop 11; OJoin 11 false hello_all; OMsg 11 (CRegister 1 [] "p") 0;
+     OMsg 10 (CCall 8 [] "p" [] []) 0; OMsg 10 (CCancel 8 kill_opts13) 0].
+  Definition e1 : event := EOut (11, RInterrupt 1 [("reason", vuri e_canceled); ("mode", vstr "killnowait")]).
+  Definition e2 : event := EOut (11, RInterrupt 1 [("reason", vuri e_canceled); ("mode", vstr "kill")]).
+  Definition pre : list event :=
+    [EIn (OJoin 10 false hello_all); EIn (OJoin 11 false hello_all);
+     EIn (OMsg 11 (CRegister 1 [] "p") 0); EOut (11, RRegistered 1 24);
+     EIn (OMsg 10 (CCall 7 [] "p" [] []) 0);
+     EOut (11, RInvocation 1 24 [("progress", VBool false); ("procedure", vuri "p")] [] []);
+     EIn (OMsg 10 (CCancel 7 []) 0)].
+  Definition mid : list event :=
+    [EOut (10, RError c_CALL 7 [] e_canceled [] []);
+     EIn (ODrop 11); EIn (OJoin 11 false hello_all);
+     EIn (OMsg 11 (CRegister 1 [] "p") 0); EOut (11, RRegistered 1 25);
+     EIn (OMsg 10 (CCall 8 [] "p" [] []) 0);
+     EOut (11, RInvocation 1 25 [("progress", VBool false); ("procedure", vuri "p")] [] []);
+     EIn (OMsg 10 (CCancel 8 kill_opts13) 0)].
+
+  Lemma hyps : Forall op_ok ops /\ k0 cfg13 + N.of_nat (List.length ops) <= max_idN /\
+               along gate_transparent (init_realm cfg13) ops /\
+               trace cfg13 ops = pre ++ e1 :: mid ++ e2 :: [] /\ rintr_ev 11 1 e1 /\ rintr_ev 11 1 e2.
+  Proof.
+    split; [unfold ops; ops_ok|]. split; [apply N.leb_le; reflexivity|].
+    split; [apply gate_transparent_no_authz; reflexivity|]. split; [vm_compute; reflexivity|].
+    split; do 2 eexists; reflexivity.
+  Qed.
+End OnceEx.
